@@ -231,7 +231,9 @@ def run_target(contract, registry, classes):
             smt.discharge(ob)
             d = dict(name=ob.name, kind=ob.kind, status=ob.status, backend=ob.backend,
                      seconds=round(ob.seconds, 4), line=ob.lineno, path=ob.trace[-6:])
-            if ob.status == "refuted" and ob.model is not None:
+            if ob.status in ("refuted", "unknown") and ob.model is not None:
+                if ob.status == "unknown":
+                    d["model_kind"] = "candidate (not a counter-model of the full obligation): decided by native replay only"
                 try:
                     d["model"] = {p: _model_value(ob.model, v) for p, v in entry.env.items()
                                   if isinstance(v, (VNum, VSeq, VStr, VTuple))}
